@@ -127,6 +127,7 @@ def gen_config(seed, tier='quick', family=None):
         'save_stats': wl.random() > 0.2,
         'save_psi': wl.random() > 0.12,  # False: psi only inside resume_data (save_resume_data=True)
         'wrapped_measurement': wl.random() < 0.5,  # only used together with extra_measurements
+        'truncerr_measurement': wl.random() < 0.3,  # only with extra_measurements + wrapped_measurement, time evolution
     }
     if fam == 'vumps' and cfg['ext'] == '.h5':
         # Observed on the pinned tree: an HDF5 results file holding a UniformMPS (VUMPS checkpoints) does not load
@@ -266,6 +267,9 @@ def build_params(cfg, out_name='results'):
                 ['checks.c18_models', 'wrap constant_measurement', {'results_key': 'my_const', 'value': 7.0}],
                 ['psi_method', 'wrap entanglement_entropy', {'results_key': 'S_wrapped'}],
                 ['checks.c18_models', 'm_late']]  # a key that first appears at the second measurement
+            if not is_gs and cfg.get('truncerr_measurement'):
+                # TruncationError objects as measurement values (tenpy stores them as <key>_eps / <key>_ov arrays)
+                params['connect_measurements'].append(['checks.c18_models', 'm_trunc_err'])
     return params
 
 
@@ -312,8 +316,11 @@ def content_digest(data):
         else:
             for x in v:
                 try:
-                    h.update(_canon_bytes(np.asarray(x)))
-                except (ValueError, TypeError):
+                    ax = np.asarray(x)
+                    if ax.dtype == object:
+                        raise TypeError
+                    h.update(_canon_bytes(ax))
+                except Exception:  # noqa: BLE001  (arbitrary objects, e.g. TruncationError: their repr)
                     h.update(repr(x).encode())
     if 'energy' in data:
         h.update(repr(complex(data['energy'])).encode())
@@ -466,6 +473,13 @@ class World:
                 kwargs = {'setup_logging': False}
                 if start[0] == 'fresh':
                     out['results'] = tenpy.run_simulation(simulation_class_kwargs=kwargs, **_deepcopy(start[1]))
+                elif len(start) > 2 and start[2] == 'from_saved_checkpoint':
+                    # the class-method route: SimClass.from_saved_checkpoint(filename) + `with sim: sim.resume_run()`
+                    from tenpy.tools.misc import find_subclass
+                    SimClass = find_subclass(sim_mod.Simulation, ENGINES[self.cfg['family']][0])
+                    sim = SimClass.from_saved_checkpoint(filename=start[1], **kwargs)
+                    with sim:
+                        out['results'] = sim.resume_run()
                 elif len(start) > 2 and start[2] == 'checkpoint_results':
                     # the user loads the file himself and hands over the dictionary
                     data = h5mod.load(start[1])
